@@ -6,6 +6,7 @@
  */
 
 #include <dispenso/thread_id.h>
+#include <dispenso/detail/verif_hooks.h>
 
 namespace dispenso {
 
@@ -15,6 +16,7 @@ DISPENSO_THREAD_LOCAL uint64_t currentThread = kInvalidThread;
 
 uint64_t threadId() {
   if (currentThread == kInvalidThread) {
+    DISPENSO_VERIF_POINT("tid.fetch_add", &nextThread);
     currentThread = nextThread.fetch_add(uint64_t{1}, std::memory_order_relaxed);
   }
   return currentThread;
